@@ -157,7 +157,7 @@ impl Property for C08 {
         ]
     }
     fn expected_probes(&self) -> Vec<&'static str> {
-        vec!["path_cpu_c000_bank7", "shadow_displayed", "flash_runs_checked", "beam_before", "beam_after", "path_poke", "path_sna", "path_szx", "path_scr", "path_fastload", "path_fastload_part", "path_fastload_c000", "path_cpu_words", "snapshot_saved_with_sp_in_screen", "screen_selected_with_lock_bit", "beam_host_write", "beam_paging_write_same_frame"]
+        vec!["path_cpu_c000_bank7", "shadow_displayed", "flash_runs_checked", "beam_before", "beam_after", "path_poke", "path_sna", "path_szx", "path_scr", "path_fastload", "path_fastload_part", "path_fastload_c000", "path_cpu_words", "first_frame_after_host_write", "snapshot_saved_with_sp_in_screen", "screen_selected_with_lock_bit", "beam_host_write", "beam_paging_write_same_frame"]
     }
 
     fn gen(&self, rng: &mut Rng, tier: Tier, idx: u64) -> Scenario {
@@ -437,7 +437,14 @@ impl Property for C08 {
                 }
                 // quiet frames
                 let frames = sc.get("frames").clamp(2, 8) as usize;
+                // host-side paths that finished before the beam reached the picture area: already the first
+                // frame delivered afterwards is the decode
+                let early = e.verif_frame_clocks() < 14000 && matches!(path, 0 | 3 | 4 | 5 | 6 | 8);
                 run_frames(&mut e, 1).map_err(|x| Fail::new("C08.run", "", x))?;
+                if early {
+                    ctx.probe("first_frame_after_host_write");
+                    check_frame(&mut e, m128, shadow, pname, ctx)?;
+                }
                 for _ in 0..frames {
                     run_frames(&mut e, 1).map_err(|x| Fail::new("C08.run", "", x))?;
                     let ph = check_frame(&mut e, m128, shadow, pname, ctx)?;
